@@ -14,7 +14,7 @@ import (
 )
 
 func init() {
-	register("C16", "Decides only the structural clauses of the result document: (R16.1) the published JSON contract read from the struct tags of the type-checked program: every key of the frozen list is still produced by a field at the same place in the document with the same tag options and JSON kind, internal fields stay tagged '-'; additional keys are reported for information only; (R16.2) TestRunID and every RunID are assigned from a call of the UUID helper that sits inside the per-document / per-run loop body, the helper's value originates from uuid.New(), and Normalize calls all five passes on every path; (R16.3) the only store of true into TracerouteHop.Reachable is control-dependent on that hop's own IPAddress being non-empty; (R16.4–R16.6) provenance of the end-to-end statistics: packets sent is len(samples), packets received is the counter that grows with the positive-sample slice under the same `> 0` guard, and min/avg/max/jitter are functions of that slice alone (backward dataflow slice of each stored value) that pass through the same scalar post-processing steps, so that a rounding / clamping of only some of them is reported. The numeric clauses (min <= avg <= max, loss ratio, jitter bounds, JSON round-trip equality of values) are NOT decided by this family: they quantify over arithmetic on runtime values. (R16.7) The per-run hop count entering the hop-count statistics is the run's length or the position of one of its hops on every path (also when computed by a helper), never a constant. No trip through the loop over the runs gets around every append of a per-run hop count.", runC16)
+	register("C16", "Decides only the structural clauses of the result document: (R16.1) the published JSON contract read from the struct tags of the type-checked program: every key of the frozen list is still produced by a field at the same place in the document with the same tag options and JSON kind, internal fields stay tagged '-'; additional keys are reported for information only; (R16.2) TestRunID and every RunID are assigned from a call of the UUID helper that sits inside the per-document / per-run loop body, the helper's value originates from uuid.New(), and Normalize calls all five passes on every path; (R16.3) the only store of true into TracerouteHop.Reachable is control-dependent on that hop's own IPAddress being non-empty; (R16.4–R16.6) provenance of the end-to-end statistics: packets sent is len(samples), packets received is the counter that grows with the positive-sample slice under the same `> 0` guard, and min/avg/max/jitter are functions of that slice alone (backward dataflow slice of each stored value) that pass through the same scalar post-processing steps, so that a rounding / clamping of only some of them is reported. The numeric clauses (min <= avg <= max, loss ratio, jitter bounds, JSON round-trip equality of values) are NOT decided by this family: they quantify over arithmetic on runtime values. (R16.7) The per-run hop count entering the hop-count statistics is the run's length or the position of one of its hops on every path (also when computed by a helper), never a constant. No trip through the loop over the runs gets around every append of a per-run hop count. R05.4 (the hops' provenance in ToHops, including address = AsSlice of the probe's address) is shared with C05.", runC16)
 }
 
 // jsonContract: type → field → (key, omitempty, kind). Frozen from the published documentation of the result document.
